@@ -2739,6 +2739,10 @@ func getScale(queryStrings url.Values) (scale uint8, err error) {
 		if err != nil {
 			return
 		}
+		if scaleInt < 0 || scaleInt > 255 {
+			err = fmt.Errorf("scale %d is out of range", scaleInt)
+			return
+		}
 		scale = uint8(scaleInt)
 	}
 	return
